@@ -262,8 +262,8 @@ class Cross:
 PROPS = {}
 
 
-def prop(pid, level, rule, assumptions, legs, real_vs_stub, cross=None, streams=None, selftest=False, miri=False, miri_mem=False):
-    PROPS[pid] = dict(level=level, rule=rule, assumptions=assumptions, legs=legs, real_vs_stub=real_vs_stub, cross=cross or [], streams=streams or [], selftest=selftest, miri=miri, miri_mem=miri_mem)
+def prop(pid, level, rule, assumptions, legs, real_vs_stub, cross=None, streams=None, selftest=False, miri=False, miri_mem=False, be_host=None):
+    PROPS[pid] = dict(level=level, rule=rule, assumptions=assumptions, legs=legs, real_vs_stub=real_vs_stub, cross=cross or [], streams=streams or [], selftest=selftest, miri=miri, miri_mem=miri_mem, be_host=be_host)
 
 
 REAL = "real code: every algorithm, buffer and dispatch path of the crates under /repo, built from the working tree"
@@ -336,6 +336,7 @@ prop(
     ],
     [REAL, STUB],
     cross=[Cross("chacha_block", "C14", "checked", 40000, 400000, ["portable", "nostd-sse2"], ALL_FIXED, max_ops=32)],
+    be_host={"quick": (2, "block,cipher"), "thorough": (12, "block,cipher")},
 )
 
 prop(
@@ -414,6 +415,7 @@ prop(
         Cross("chacha_block", "C14", "release", 20000, 200000, ["portable", "nostd-sse2"], ALL_FIXED, max_ops=32),
         Cross("vecops", "C03", "release", 100000, 2000000, ["portable"], ["portable", "nostd-sse2", "nostd-avx2"], max_ops=40),
     ],
+    be_host={"quick": (1, "cipher,jh1"), "thorough": (2, "block,cipher,hash")},
 )
 
 
@@ -651,6 +653,13 @@ def run_property(pid, tier):
             run_streams(pid, spec["streams"], tier, sd, replay_dir, stream_results, violations, known)
         except HarnessError as e:
             harness_error = str(e)
+    be_results = []
+    be_total = 0
+    if spec.get("be_host") and not harness_error:
+        try:
+            be_total = run_be_layer(pid, spec["be_host"], tier, sd, replay_dir, be_results, violations, known)
+        except HarnessError as e:
+            harness_error = str(e)
     mem_results = []
     mem_total = 0
     if spec.get("miri_mem") and not harness_error:
@@ -668,15 +677,18 @@ def run_property(pid, tier):
     total_runs, total_ops = acc["total_runs"], acc["total_ops"]
     wall = time.time() - t0
     extra = None
+    if be_results:
+        extra = dict(big_endian_host=be_results)
+        total_runs += 1
     if stream_results:
-        extra = dict(streamed_for_real=stream_results)
+        extra = dict(extra or {}, streamed_for_real=stream_results)
         total_runs += len(stream_results)
     if spec.get("miri"):
-        extra = dict(miri_thread_layer=dict(cold_process_runs=miri_total, each_run="a fresh Miri interpreter (cold process: lazy_static tables, std feature cache and every Once uninitialised); 2-4 threads released by a barrier; every preemption decided by Miri's seeded scheduler; data-race and deadlock detection on",
+        extra = dict(extra or {}, miri_thread_layer=dict(cold_process_runs=miri_total, each_run="a fresh Miri interpreter (cold process: lazy_static tables, std feature cache and every Once uninitialised); 2-4 threads released by a barrier; every preemption decided by Miri's seeded scheduler; data-race and deadlock detection on",
                                           workloads=miri_results))
         total_runs += miri_total
     if enumerated:
-        extra = dict(miri_exact_allocation_pass=mem_results, enumerated_completely=enumerated, exhaustive=True,
+        extra = dict(extra or {}, miri_exact_allocation_pass=mem_results, enumerated_completely=enumerated, exhaustive=True,
                      exhaustive_scope="placement x start alignment/length residue (3 x 64) for every (operation kind, prefix class, length class, host level) combination; data contents are sampled")
     return finish(pid, tier, sd, spec, wall, total_runs, total_ops, states, counters, notes, samples, legs_out, violations, known, others, harness_error, extra)
 
@@ -747,6 +759,106 @@ def classify_miri(out):
 
 
 NW = 62
+BE_TARGET = "s390x-unknown-linux-gnu"
+
+
+def be_dirs():
+    tag = "miribe" + repo_tag()
+    bdir = os.path.join(VERIF, "build", tag)
+    os.makedirs(os.path.join(bdir, ".cargo"), exist_ok=True)
+    tmpl = open(os.path.join(VERIF, "miribe", "Cargo.toml.in")).read()
+    manifest = tmpl.replace("@REPO@", REPO).replace("@BE@", os.path.join(VERIF, "miribe"))
+    mpath = os.path.join(bdir, "Cargo.toml")
+    if not os.path.exists(mpath) or open(mpath).read() != manifest:
+        open(mpath, "w").write(manifest)
+    if not os.path.exists(os.path.join(bdir, "Cargo.lock")):
+        shutil.copy(os.path.join(VERIF, "sim", "Cargo.lock.seed"), os.path.join(bdir, "Cargo.lock"))
+    open(os.path.join(bdir, ".cargo", "config.toml"), "w").write("[net]\noffline = true\n")
+    return bdir, mpath, tag
+
+
+def be_sysroot():
+    """Miri sysroot for the big-endian target, built once from rust-src (offline)."""
+    sysroot = os.path.join(VERIF, "target", "miri-sysroot-s390x")
+    if not os.path.isdir(os.path.join(sysroot, "lib", "rustlib", BE_TARGET)):
+        env = dict(os.environ, CARGO_NET_OFFLINE="true", MIRI_SYSROOT=sysroot)
+        env.pop("RUSTFLAGS", None)
+        p = subprocess.run(["cargo", "+nightly", "miri", "setup", "--target", BE_TARGET], env=env, cwd=VERIF, stdout=subprocess.PIPE, stderr=subprocess.STDOUT, text=True)
+        if p.returncode != 0:
+            log(p.stdout[-3000:])
+            raise HarnessError("could not build the Miri sysroot for " + BE_TARGET)
+    return sysroot
+
+
+def be_run(seed_, scale, sections, big):
+    bdir, mpath, tag = be_dirs()
+    env = dict(os.environ)
+    env["RUSTFLAGS"] = BASE_RUSTFLAGS
+    env["CARGO_NET_OFFLINE"] = "true"
+    if big:
+        env["MIRI_SYSROOT"] = be_sysroot()
+        env["CARGO_TARGET_DIR"] = os.path.join(VERIF, "target", tag)
+        cmd = ["cargo", "+nightly", "miri", "run", "--offline", "--quiet", "--target", BE_TARGET, "--manifest-path", mpath, "--", str(seed_), str(scale), sections]
+    else:
+        env["CARGO_TARGET_DIR"] = os.path.join(VERIF, "target", tag + "-native")
+        cmd = ["cargo", "run", "--offline", "--quiet", "--manifest-path", mpath, "--", str(seed_), str(scale), sections]
+    p = subprocess.run(cmd, env=env, cwd=bdir, stdout=subprocess.PIPE, stderr=subprocess.PIPE, text=True)
+    return p.returncode, p.stdout, p.stderr
+
+
+def run_be_layer(pid, spec_be, tier, sd, replay_dir, results, violations, known):
+    """The big-endian simulated host: the same seeded operation list natively (little-endian x86-64) and under Miri
+    interpreting an s390x build; transcripts must be identical; the refill4 = 4 x refill assertions run on the host itself."""
+    scale, sections = spec_be[tier]
+    if not sections:
+        return 0
+    t0 = time.time()
+    rc_le, out_le, err_le = be_run(sd, scale, sections, False)
+    if rc_le != 0:
+        log(err_le[-2000:])
+        raise HarnessError("the little-endian twin of the big-endian host failed (rc=%s)" % rc_le)
+    rc_be, out_be, err_be = be_run(sd, scale, sections, True)
+    le = [l for l in out_le.splitlines() if l.startswith("T ")]
+    be = [l for l in out_be.splitlines() if l.startswith("T ")]
+    endian = [l for l in out_be.splitlines() if l.startswith("ENDIAN")]
+    if endian != ["ENDIAN big"]:
+        log(err_be[-2000:])
+        raise HarnessError("the big-endian host did not start (%s)" % endian)
+    diffs = {}
+    for i, l in enumerate(le):
+        name = l.split()[2]
+        if i >= len(be):
+            break
+        if be[i] != l:
+            diffs.setdefault(name, []).append(i)
+    failed = rc_be != 0
+    results.append(dict(host="big-endian s390x build interpreted by Miri", sections=sections, scale=scale, operations=len(le), operations_completed_on_host=len(be),
+                        differing_operation_kinds=sorted(diffs), host_failed=failed, wall_s=round(time.time() - t0, 1)))
+    log("[%s] big-endian host: %d operations (%s), differing kinds %s, %s" % (pid, len(le), sections, sorted(diffs), "FAILED" if failed else "completed"))
+    found = []
+    if failed:
+        tail = "\n".join(l for l in err_be.splitlines() if l.strip())[-1200:]
+        what = "refill4 differs from four refills" if "refill4" in err_be else "panic" if "panicked" in err_be else "undefined behaviour" if "Undefined Behavior" in err_be else "abnormal exit"
+        found.append(("big-endian host fails:%s" % what, "after %d of %d operations: %s" % (len(be), len(le), tail)))
+    for name, idx in sorted(diffs.items()):
+        fam = "jh" if name.startswith("jh") else name
+        found.append(("big-endian host differs:%s" % fam, "%d operations of kind %s give other results than on the little-endian hosts (first: line %d: LE %s / BE %s)" % (len(idx), name, idx[0], le[idx[0]].split()[3], be[idx[0]].split()[3])))
+    seen = set()
+    for sig, detail in found:
+        if sig in seen:
+            continue
+        seen.add(sig)
+        f = dict(kind="miri_be", verif_seed=sd, scale=scale, sections=sections, ops=[], minimised_from=len(le),
+                 violation=dict(properties=[pid], invariant="B1", signature=sig, at_op=0, detail=detail))
+        path = os.path.join(replay_dir, "%s-be-%s.json" % (pid, hashlib.sha1(sig.encode()).hexdigest()[:8]))
+        json.dump(f, open(path, "w"))
+        f["replay"] = path
+        kf = open_finding_for(pid, sig)
+        if kf:
+            known.append((kf, f))
+        else:
+            violations.append(f)
+    return len(le)
 
 
 def miri_mem_run(base, parts, seed_lo, seed_hi, part=None):
@@ -1098,6 +1210,19 @@ def replay(pid, path):
             return 1
         print("OK replay: the batch prefix passes on this tree")
         return 0
+    if j.get("kind") == "miri_be":
+        res, viol, kn = [], [], []
+        run_be_layer(pid, {"quick": (j["scale"], j["sections"]), "thorough": (j["scale"], j["sections"])}, "quick", j.get("verif_seed", 1), os.path.join(VERIF, "replays"), res, viol, kn)
+        sig = j["violation"]["signature"]
+        if any(f["violation"]["signature"] == sig for kf, f in kn):
+            print("KNOWN-FINDING: property=%s %s" % (pid, [kf for kf, f in kn if f["violation"]["signature"] == sig][0].get("what")))
+            return 0
+        if any(f["violation"]["signature"] == sig for f in viol):
+            print("VIOLATION property=%s replay=%s" % (pid, path))
+            print("  " + [f for f in viol if f["violation"]["signature"] == sig][0]["violation"]["detail"][:500])
+            return 1
+        print("OK replay: the big-endian host agrees on this tree")
+        return 0
     if j.get("kind") == "miri_mem":
         rc, out = miri_mem_run(j["base_seed"], j["parts"], j["miri_seed"], j["miri_seed"] + 1)
         if rc != 0:
@@ -1222,6 +1347,23 @@ def setup():
             log(err)
             print("HARNESS-ERROR: reference-model self-test failed in %s/%s" % (hb, profile))
             return 2
+    # interpreters: Miri sysroots (x86-64 host target and the big-endian s390x target) and the small Miri binaries
+    try:
+        miri_native()
+        rc, out = miri_mem_run(1, 64, 1, 2, part=0)
+        if rc != 0:
+            log(out[-2000:])
+            print("HARNESS-ERROR: Miri could not run the memory-pass binary")
+            return 2
+        rc_le, out_le, err_le = be_run(1, 1, "cipher", False)
+        rc_be, out_be, err_be = be_run(1, 1, "cipher", True)
+        if rc_le != 0 or rc_be != 0:
+            log(err_le[-1500:] + err_be[-1500:])
+            print("HARNESS-ERROR: the big-endian host (Miri, %s) could not be started" % BE_TARGET)
+            return 2
+    except HarnessError as e:
+        print("HARNESS-ERROR: %s" % e)
+        return 2
     print("setup ok (%.0fs)" % (time.time() - t0))
     return 0
 
